@@ -35,15 +35,12 @@ def earlierSame (pre : List Entry) (e : Entry) : Nat := (pre.filter fun m => isM
 def someForm (e : Entry) : Bool := e.forms.any (· ≠ [])
 def hasTranslation (e : Entry) : Bool := e.hasMsgstr || someForm e
 
-def msgstrList (e : Entry) : List Str := if e.hasMsgstr then [e.msgstr.getD []] else []
-
 /-- considered strings: msgid_plural if present; unless fuzzy: msgstr if non-empty, all forms if some form is non-empty -/
 def considered (e : Entry) : List Str :=
-  (match e.msgidPlural with | some p => [p] | none => []) ++
-    (if fuzzy e then [] else msgstrList e ++ (if someForm e then e.forms else []))
+  e.pluralList ++ (if fuzzy e then [] else e.msgstrList ++ (if someForm e then e.forms else []))
 
 /-- translation strings in order: msgstr, then the forms by index -/
-def translations (e : Entry) : List Str := msgstrList e ++ (if someForm e then e.formsSorted else [])
+def translations (e : Entry) : List Str := e.msgstrList ++ (if someForm e then e.formsSorted else [])
 
 /-! ## unusual characters -/
 
@@ -201,9 +198,7 @@ def entryTags (env : Env) (ctx : Ctx) (pre : List Entry) (e : Entry) : List Emit
   ++ rule ((considered e).any fun s => trailingLf s != trailingLf e.msgid) (tagR db e tplPlain .inconsistentTrailingNewlines [])
   ++ (if ctx.hasEncoding then unusualTags env pre e [] (translations e) else [])
   ++ (if fuzzy e then [] else
-       (match firstMarker env e with
-        | some m => [tagR db e tplPlain .conflictMarkerInTranslation [.str m]]
-        | none => [])
+       markerTag db e (firstMarker env e)
        ++ rule (someForm e && e.forms.any (· = [])) (tagR db e tplPlain .partiallyTranslatedMessage []))
 
 /-- `empty-file` ⇔ no message ∧ ¬(MO ∧ possible hidden strings) -/
